@@ -93,10 +93,10 @@ def run(ctx, rep, tier):
         inner = [m for m in outer[0].body if isinstance(m, ast.For)]
         rep.check(len(inner) == 1 and ast.unparse(inner[0].iter) == ov, "C08.c", CV, f"every pattern of every clause in {outer_iter} is converted and merged", "flatten loop changed")
     ps = ast.unparse(model.func("ParseCtx._parse_stmt"))
-    rep.check("priorities[k] = int(block.children[0].value)" in ps and "CaseNode(case_blocks, greedy=True, priorities=priorities)" in ps, "C08.c", "ParseCtx._parse_stmt",
+    rep.check(model.has("ParseCtx._parse_stmt", "priorities[k] = int(block.children[0].value)") and model.has("ParseCtx._parse_stmt", "CaseNode(case_blocks, greedy=True, priorities=priorities)"), "C08.c", "ParseCtx._parse_stmt",
               "prio N blocks record N for each of their clauses", "greedy case parsing changed")
     init = ast.unparse(model.func("CaseNode.__init__"))
-    rep.check("self.priorities = defaultdict(int)" in init and "self.priorities.update(priorities)" in init, "C08.c", "CaseNode.__init__", "unprioritised clauses default to 0", "priority defaults changed")
+    rep.check(model.has("CaseNode.__init__", "self.priorities = defaultdict(int)") and model.has("CaseNode.__init__", "self.priorities.update(priorities)"), "C08.c", "CaseNode.__init__", "unprioritised clauses default to 0", "priority defaults changed")
 
     rep.rule("C08.d", "finish states of a clause are linked to that clause's body (append_after) or receive that clause's actions")
     link = [c for c in calls_in(cv, nested=False) if isinstance(c.func, ast.Attribute) and c.func.attr == "append_after" and any(k.arg == "sub_states" for k in c.keywords)]
